@@ -299,4 +299,288 @@ theorem complete_spec (s : St) (h : Inv s) (hne : s.ended = false)
   · show (writeN s.nextReq (step s .pump)).waiting = _
     rw [hp, h3]
 
+/-! ## the socket writer: one whole poll -/
+
+/-- the FIFO-relevant fields agree -/
+def SameCore (s s' : St) : Prop :=
+  s'.nextReq = s.nextReq ∧ s'.waiting = s.waiting ∧ s'.replies = s.replies ∧
+  s'.written = s.written ∧ s'.pairs = s.pairs
+
+theorem Inv_of_sameCore {s s' : St} (hc : SameCore s s') (h : Inv s) : Inv s' := by
+  obtain ⟨h1, h2, h3, h4, h5⟩ := hc
+  have hp : popped s' = popped s := by simp [popped, h3, h4]
+  constructor
+  · rw [hp, h1]; exact h.le
+  · rw [hp, h1, h2]; exact h.waiting
+  · rw [hp, h3, h4, h5]; exact h.out
+  · rw [hp, h5]; exact h.ready
+  · rw [h5]; exact h.pairs
+
+theorem flushWith_core (s : St) (cap : Nat) : SameCore s (flushWith s cap).1 := by
+  simp [flushWith, SameCore]
+
+theorem flushWith_le (s : St) (cap : Nat) (h : s.flushed ≤ s.written.length) :
+    (flushWith s cap).1.flushed ≤ (flushWith s cap).1.written.length := by
+  simp only [flushWith]; omega
+
+/-- a flush that leaves something in the buffer has registered the waker -/
+theorem flushWith_armed (s : St) (cap : Nat)
+    (hlt : (flushWith s cap).1.flushed < (flushWith s cap).1.written.length) :
+    (flushWith s cap).1.armed = true := by
+  simp only [flushWith] at hlt ⊢
+  have : min (s.written.length - s.flushed) cap < s.written.length - s.flushed := by omega
+  simp [this]
+
+theorem flushWith_keeps_armed (s : St) (cap : Nat) (h : s.armed = true) :
+    (flushWith s cap).1.armed = true := by
+  simp [flushWith, h]
+
+theorem flushWith_replies (s : St) (cap : Nat) : (flushWith s cap).1.replies = s.replies := by
+  simp [flushWith]
+
+theorem flushWith_written (s : St) (cap : Nat) : (flushWith s cap).1.written = s.written := by
+  simp [flushWith]
+
+theorem flushWith_hwm (s : St) (cap : Nat) : (flushWith s cap).1.hwm = s.hwm := by
+  simp [flushWith]
+
+theorem writeLoop_inv : ∀ (n : Nat) (s : St) (cap : Nat), Inv s → s.ended = false →
+    Inv (writeLoop n s cap).1 ∧ (writeLoop n s cap).1.ended = false := by
+  intro n
+  induction n with
+  | zero => intro s cap h he; exact ⟨h, he⟩
+  | succ n ih =>
+    intro s cap h he
+    simp only [writeLoop]
+    by_cases hov : s.written.length - s.flushed ≥ s.hwm
+    · simp only [hov, if_true, true_and]
+      have hI := Inv_of_sameCore (flushWith_core s cap) h
+      have hE : (flushWith s cap).1.ended = false := by simpa [flushWith] using he
+      split
+      · exact ⟨hI, hE⟩
+      · split
+        · exact ⟨Inv_of_sameCore (flushWith_core _ _) hI, by simpa [flushWith] using hE⟩
+        · rename_i r rest hr
+          apply ih
+          · have := step_inv (flushWith s cap).1 .writeOne hI
+            simpa [step, hE, hr] using this
+          · exact hE
+    · simp only [hov, if_false, false_and]
+      split
+      · exact ⟨Inv_of_sameCore (flushWith_core _ _) h, by simpa [flushWith] using he⟩
+      · rename_i r rest hr
+        apply ih
+        · have := step_inv s .writeOne h
+          simpa [step, he, hr] using this
+        · exact he
+
+theorem requests_inv : ∀ (n : Nat) (s : St), Inv s → Inv (requests n s) := by
+  intro n
+  induction n with
+  | zero => intro s h; exact h
+  | succ n ih => intro s h; exact ih _ (step_inv s .request h)
+
+theorem requests_fields : ∀ (n : Nat) (s : St),
+    (requests n s).ended = s.ended ∧ (requests n s).flushed = s.flushed ∧
+    (requests n s).written = s.written ∧ (requests n s).replies = s.replies ∧
+    (requests n s).armed = s.armed ∧ (requests n s).hwm = s.hwm := by
+  intro n
+  induction n with
+  | zero => intro s; simp [requests]
+  | succ n ih =>
+    intro s
+    have := ih (step s .request)
+    simp only [requests]
+    by_cases he : s.ended = true <;> simp_all [step]
+
+theorem pump_fields (s : St) :
+    (step s .pump).ended = s.ended ∧ (step s .pump).flushed = s.flushed ∧
+    (step s .pump).written = s.written ∧ (step s .pump).armed = s.armed ∧
+    (step s .pump).hwm = s.hwm := by
+  by_cases he : s.ended = true <;> simp [step, he]
+
+theorem pollStep_inv (s : St) (nreq cap : Nat) (h : Inv s) : Inv (pollStep s nreq cap) := by
+  unfold pollStep
+  split
+  · exact h
+  · rename_i he
+    have he' : s.ended = false := by simpa using he
+    have h0 : Inv { s with armed := false } := Inv_of_sameCore (by simp [SameCore]) h
+    have h1 := requests_inv nreq _ h0
+    have h2 := step_inv _ .pump h1
+    have e1 := (requests_fields nreq { s with armed := false }).1
+    have e2 := (pump_fields (requests nreq { s with armed := false })).1
+    exact (writeLoop_inv _ _ cap h2 (by rw [e2, e1]; exact he')).1
+
+theorem pstep_inv (s : St) (e : PEv) (h : Inv s) : Inv (pstep s e) := by
+  cases e with
+  | send id r => exact step_inv s (.send id r) h
+  | dropSender id => exact step_inv s (.dropSender id) h
+  | poll n c => exact pollStep_inv s n c h
+  | stop => exact step_inv s .stop h
+
+theorem prun_inv : ∀ (evs : List PEv) (s : St), Inv s → Inv (prun s evs) := by
+  intro evs
+  induction evs with
+  | nil => intro s h; exact h
+  | cons e es ih => intro s h; exact ih _ (pstep_inv s e h)
+
+/-- nothing stays unflushed or unwritten without a registered waker -/
+def FlushOk (s : St) : Prop :=
+  s.flushed ≤ s.written.length ∧
+  ((s.flushed < s.written.length ∨ s.replies ≠ []) → s.armed = true)
+
+theorem writeLoop_flushOk : ∀ (n : Nat) (s : St) (cap : Nat), s.replies.length < n →
+    s.flushed ≤ s.written.length → FlushOk (writeLoop n s cap).1 := by
+  intro n
+  induction n with
+  | zero => intro s cap h; omega
+  | succ n ih =>
+    intro s cap hn hle
+    simp only [writeLoop]
+    by_cases hov : s.written.length - s.flushed ≥ s.hwm
+    · simp only [hov, if_true, true_and]
+      have hle1 := flushWith_le s cap hle
+      split
+      · rename_i hlt
+        exact ⟨hle1, fun _ => flushWith_armed s cap hlt⟩
+      · split
+        · rename_i hr
+          refine ⟨flushWith_le _ _ hle1, ?_⟩
+          intro hor
+          rcases hor with hlt | hne
+          · exact flushWith_armed _ _ hlt
+          · rw [flushWith_replies, hr] at hne; exact absurd rfl hne
+        · rename_i r rest hr
+          apply ih
+          · have : (flushWith s cap).1.replies = s.replies := flushWith_replies s cap
+            rw [hr] at this
+            show rest.length < n
+            have hl : s.replies.length = rest.length + 1 := by rw [← this]; simp
+            omega
+          · show (flushWith s cap).1.flushed ≤ ((flushWith s cap).1.written ++ [r]).length
+            simp only [List.length_append]; omega
+    · simp only [hov, if_false, false_and]
+      split
+      · rename_i hr
+        refine ⟨flushWith_le _ _ hle, ?_⟩
+        intro hor
+        rcases hor with hlt | hne
+        · exact flushWith_armed _ _ hlt
+        · rw [flushWith_replies, hr] at hne; exact absurd rfl hne
+      · rename_i r rest hr
+        apply ih
+        · show rest.length < n
+          have hl : s.replies.length = rest.length + 1 := by rw [hr]; simp
+          omega
+        · show s.flushed ≤ (s.written ++ [r]).length
+          simp only [List.length_append]; omega
+
+theorem pollStep_flushOk (s : St) (nreq cap : Nat) (h : FlushOk s) : FlushOk (pollStep s nreq cap) := by
+  unfold pollStep
+  split
+  · exact h
+  · apply writeLoop_flushOk
+    · omega
+    · have r := requests_fields nreq { s with armed := false }
+      have p := pump_fields (requests nreq { s with armed := false })
+      rw [p.2.1, p.2.2.1, r.2.1, r.2.2.1]
+      exact h.1
+
+theorem pstep_flushOk (s : St) (e : PEv) (h : FlushOk s) : FlushOk (pstep s e) := by
+  cases e with
+  | send id r => simpa [pstep, step, FlushOk] using h
+  | dropSender id => simpa [pstep, step, FlushOk] using h
+  | poll n c => exact pollStep_flushOk s n c h
+  | stop => simpa [pstep, step, FlushOk] using h
+
+theorem prun_flushOk : ∀ (evs : List PEv) (s : St), FlushOk s → FlushOk (prun s evs) := by
+  intro evs
+  induction evs with
+  | nil => intro s h; exact h
+  | cons e es ih => intro s h; exact ih _ (pstep_flushOk s e h)
+
+theorem FlushOk_init : FlushOk init := by simp [FlushOk, init]
+
+/-- with enough socket capacity one write stage puts everything on the socket -/
+theorem writeLoop_all : ∀ (n : Nat) (s : St) (cap : Nat), s.replies.length < n →
+    s.flushed ≤ s.written.length →
+    (s.written.length - s.flushed) + s.replies.length ≤ cap →
+    (writeLoop n s cap).1.written = s.written ++ s.replies ∧ (writeLoop n s cap).1.replies = [] ∧
+    (writeLoop n s cap).1.flushed = (writeLoop n s cap).1.written.length := by
+  intro n
+  induction n with
+  | zero => intro s cap h; omega
+  | succ n ih =>
+    intro s cap hn hle hcap
+    have hfull : ∀ (s0 : St) (c : Nat), s0.flushed ≤ s0.written.length →
+        s0.written.length - s0.flushed ≤ c →
+        (flushWith s0 c).1.flushed = s0.written.length ∧
+        (flushWith s0 c).2 = c - (s0.written.length - s0.flushed) := by
+      intro s0 c h1 h2
+      simp only [flushWith]
+      have : min (s0.written.length - s0.flushed) c = s0.written.length - s0.flushed := by omega
+      rw [this]; exact ⟨by omega, rfl⟩
+    simp only [writeLoop]
+    by_cases hov : s.written.length - s.flushed ≥ s.hwm
+    · simp only [hov, if_true, true_and]
+      obtain ⟨f1, f2⟩ := hfull s cap hle (by omega)
+      have hw := flushWith_written s cap
+      have hnot : ¬ ((flushWith s cap).1.flushed < (flushWith s cap).1.written.length) := by
+        rw [f1, hw]; omega
+      simp only [hnot, if_false]
+      split
+      · rename_i hr
+        have hr' : s.replies = [] := by rw [← flushWith_replies s cap]; exact hr
+        obtain ⟨g1, _⟩ := hfull (flushWith s cap).1 (flushWith s cap).2 (by rw [f1, hw]; omega) (by rw [f1, hw]; omega)
+        refine ⟨by simp [flushWith_written, hr'], by simp [flushWith_replies, hr'], ?_⟩
+        rw [g1]; simp [flushWith_written]
+      · rename_i r rest hr
+        have hr' : s.replies = r :: rest := by rw [← flushWith_replies s cap]; exact hr
+        have := ih { (flushWith s cap).1 with replies := rest, written := (flushWith s cap).1.written ++ [r] }
+          (flushWith s cap).2
+          (by show rest.length < n; rw [hr'] at hn; simp at hn; omega)
+          (by show (flushWith s cap).1.flushed ≤ ((flushWith s cap).1.written ++ [r]).length
+              rw [f1, hw]; simp)
+          (by show ((flushWith s cap).1.written ++ [r]).length - (flushWith s cap).1.flushed + rest.length ≤ (flushWith s cap).2
+              rw [f1, f2, hw]; rw [hr'] at hcap; simp at hcap ⊢; omega)
+        obtain ⟨a1, a2, a3⟩ := this
+        refine ⟨?_, a2, a3⟩
+        rw [a1, hw, hr']; simp
+    · simp only [hov, if_false, false_and]
+      split
+      · rename_i hr
+        obtain ⟨g1, _⟩ := hfull s cap hle (by omega)
+        refine ⟨by simp [flushWith_written, hr], by simp [flushWith_replies, hr], ?_⟩
+        rw [g1]; simp [flushWith_written]
+      · rename_i r rest hr
+        have := ih { s with replies := rest, written := s.written ++ [r] } cap
+          (by show rest.length < n; rw [hr] at hn; simp at hn; omega)
+          (by show s.flushed ≤ (s.written ++ [r]).length; simp; omega)
+          (by show (s.written ++ [r]).length - s.flushed + rest.length ≤ cap
+              rw [hr] at hcap; simp at hcap ⊢; omega)
+        obtain ⟨a1, a2, a3⟩ := this
+        refine ⟨?_, a2, a3⟩
+        rw [a1, hr]; simp
+
+/-- a poll during which the socket has room for everything leaves nothing behind -/
+theorem pollStep_all (s : St) (cap : Nat) (h : Inv s) (hf : FlushOk s) (he : s.ended = false)
+    (hcap : s.nextReq ≤ cap) :
+    (pollStep s 0 cap).flushed = (pollStep s 0 cap).written.length ∧ (pollStep s 0 cap).replies = [] := by
+  unfold pollStep
+  split
+  · rename_i h'; rw [he] at h'; exact absurd h' (by simp)
+  · have h0 : Inv { s with armed := false } := Inv_of_sameCore (by simp [SameCore]) h
+    have h2 := step_inv _ .pump (requests_inv 0 _ h0)
+    have p := pump_fields (requests 0 { s with armed := false })
+    have hle := h2.le
+    have hn : (step (requests 0 { s with armed := false }) .pump).nextReq = s.nextReq := by
+      simp [requests, step, he]
+    have hfl : (step (requests 0 { s with armed := false }) .pump).flushed ≤
+        (step (requests 0 { s with armed := false }) .pump).written.length := by
+      rw [p.2.1, p.2.2.1]; exact hf.1
+    have := writeLoop_all _ (step (requests 0 { s with armed := false }) .pump) cap (Nat.lt_succ_self _) hfl
+      (by simp only [popped] at hle; omega)
+    exact ⟨this.2.2, this.2.1⟩
+
 end Um.Session
